@@ -227,6 +227,10 @@ def gen_expr_case(rng, mode, sq):
         v2 = rng.choice(dv)
         # substitution: x -> expression, y -> variable name, z -> number
         sub_t = gen_tree(rng, 1, mode if mode == "exact" else "exact")
+        if mode == "tol" and "sign" in tree_fns(sub_t):
+            # sign(constant) in a substituted expression: the real-number goal contains a case distinction the
+            # Interval tactic cannot decide at 0 (an unprovable goal, not a disagreement); sign is covered in exact mode
+            continue
         sigma = {"x": ("e", sub_t), "y": ("s", rng.choice(VARS)), "z": ("n", Fraction(rng.randint(-6, 6), 2))}
         sigma = {k: s for k, s in sigma.items() if rng.random() < 0.7}
         pysig = {k: (to_py(s[1], sq, rng) if s[0] == "e" else s[1] if s[0] == "s" else fnum(s[1])) for k, s in sigma.items()}
